@@ -42,6 +42,11 @@ Theorem c01_client_recover_refuted_drop :
   exists s, run cfg_client_recover init sched_client_drop = Some s /\ ~ C01Spec (g_log s) (log s).
 Proof. apply refute. vm_compute. reflexivity. Qed.
 
+Definition cfg_connect_recover := mkCfg VConnect true true 2 1 false false false false false false false.
+Theorem c01_connect_recover_refuted :
+  exists s, run cfg_connect_recover init sched_client_drop = Some s /\ ~ C01Spec (g_log s) (log s).
+Proof. apply refute. vm_compute. reflexivity. Qed.
+
 Theorem c01_client_recover_refuted_delay :
   exists s, run cfg_client_recover init sched_client_delay = Some s /\ ~ C01Spec (g_log s) (log s).
 Proof. apply refute. vm_compute. reflexivity. Qed.
